@@ -90,7 +90,7 @@ class WebsocketSession(object):
                 # The lock is reentrant: this is the thread that is in
                 # the middle of a write, entered again from a signal
                 # handler or a finaliser. Frames can't be nested.
-                raise errors.WebSocketUnavailable('write in progress')
+                raise errors.WebSocketBusy('write in progress')
             if self._sock is None:
                 log.debug('WebSocket unavailable; data not sent')
                 raise errors.WebSocketUnavailable('not connected')
@@ -106,6 +106,11 @@ class WebsocketSession(object):
             self._writing = True
             try:
                 self._sock.sendall(data)
+                if closing:
+                    # Set while the write lock is held, so no other
+                    # thread can write a frame after the close frame
+                    # (and before a nested write is possible again).
+                    self._state.closing = True
             except socket.error as error:
                 log.debug('WebSocket send error; %s', error)
                 raise errors.TransportFail(
@@ -118,10 +123,6 @@ class WebsocketSession(object):
                 )
             finally:
                 self._writing = False
-            if closing:
-                # Set while the write lock is held, so no other thread
-                # can write a frame after the close frame.
-                self._state.closing = True
 
     def send(self, opcode, data):
         """Send a WS Frame."""
